@@ -2,8 +2,38 @@ import TacklerModel.Model.Charts
 /-!
 # C12 — strict mode accepts exactly the journals that use only declared names
 
-(work in progress)
+Model: `Model/Settings.lean` (`accountTreesFrom`, `getOrCreateCommodity`, `getOrCreateTxnAccount`,
+`getOrCreateTag`, `getTxnAccount`), `Model/Accept.lean` (`acceptJournal` and its parts),
+`Model/Charts.lean` (`settingsTryFrom`: report commodity, price-file commodities, equity account).
+
+Property theorems (all for arbitrary journals, charts and settings; no size bounds):
+
+* `strict_iff` / `strict_iff_config` — strict mode accepts a journal (yielding `ts`) iff every account,
+  commodity (posting, closing price) and tag it uses is declared and lax mode with the same switches
+  accepts it (yielding the same `ts`), whatever the lax charts are.
+* `strict_iff_cfg` — the same for the whole load, including the names the configuration uses
+  (report commodity, price-file commodities, equity account of a selected equity export).
+* `strict_frozen` — in strict mode reading a journal never changes the charts.
+* `synthetic_only_reports` — an undeclared ancestor of a declared account cannot be posted to, but
+  `getTxnAccount` (report lookup) finds it.
+* `lax_chart_free`, `lax_chart_free_outcome`, `lax_chart_free_config` — with strict mode off acceptance
+  (three-valued outcome) and the accepted transactions do not depend on the charts.
+* `lax_ancestor_closed`, `ofConfig_closed`, `report_parents_ok` — the account chart stays ancestor-closed
+  in lax mode (declared + synthetic closed in strict mode), hence the balance kernel's lookup succeeds for
+  every ancestor of every posted account, in both modes.  Finding F9 was the failure of this for
+  `accountTreesFrom … false`; the witnesses at the end keep it from coming back.
+* `modes_agree` — both modes accept ⇒ same transactions.
+
+Not covered by a theorem: equality of the *report texts* between modes/charts (the reports are not
+modelled here); the tie's oracle checks it on the implementation.
+
+Proof architecture: every state-threaded function `f` gets a `StepSpec f P` (switches preserved, charts
+frozen in strict mode, `f s a = ok b ↔ (s strict → P s a) ∧ f s' a = ok b` for every lax `s'` with the same
+switches); `StepSpec.mapMS` lifts it through the traversals.  A second family (`Grow`) tracks chart growth
+and ancestor closure, a third (`OutSim`) the three-valued agreement of two lax runs.
 -/
+set_option linter.unusedSimpArgs false
+
 namespace Tackler
 namespace C12
 
@@ -1396,15 +1426,6 @@ theorem strict_iff_config (audit pe : Bool) (accts : List Path) (comms tags : Li
       exact (accountTreesFrom_strict_fst accts x).mpr (a x hx)
   rw [hd]
 
-/-- **lax_chart_free** on configurations: the declared charts are irrelevant with strict mode off -/
-theorem lax_chart_free_config (audit pe : Bool) (accts : List Path) (comms tags : List String)
-    (rs : List RawTxn) (ts : List Txn) :
-    (∃ s2, acceptJournal (Settings.ofConfig false audit pe accts comms tags) rs = .ok (ts, s2)) ↔
-      ∃ s2', acceptJournal (Settings.ofConfig false audit pe [] [] []) rs = .ok (ts, s2') := by
-  obtain ⟨h1, h2, h3, _⟩ := ofConfig_strict false audit pe accts comms tags
-  obtain ⟨k1, k2, k3, _⟩ := ofConfig_strict false audit pe [] [] []
-  exact lax_chart_free _ _ rs ts h1 k1 (k3.trans h3.symm) (k2.trans h2.symm)
-
 /-- **synthetic_only_reports.** In strict mode an undeclared ancestor `a` of a declared account `d` cannot be
     posted to (`get_or_create_txn_account` does not succeed, whatever the commodity), but
     `get_txn_account` — the lookup the balance kernel uses for gap rows — finds it. -/
@@ -1713,6 +1734,298 @@ theorem strict_iff_cfg (c : ChartCfg) (rs : List RawTxn) (ts : List Txn) (hs : c
     refine ⟨s2, ?_, st1, hreg, hj⟩
     rintro ⟨_, het, hne⟩
     exact hne ((hacc _).mpr (he het))
+
+/-! ## Strict mode off: the three-valued outcome (ok / err / outside the modelled domain) and the value do
+not depend on the charts -/
+
+/-- two lax-mode settings with the same switches (charts arbitrary) -/
+structure LaxRel (s s' : Settings) : Prop where
+  l : s.strict = false
+  l' : s'.strict = false
+  pe : s'.permitEmpty = s.permitEmpty
+  audit : s'.audit = s.audit
+
+theorem LaxRel.step {s s' t t' : Settings} (h : LaxRel s s') (h1 : Flags t = Flags s) (h2 : Flags t' = Flags s') :
+    LaxRel t t' := by
+  simp only [Flags, Prod.mk.injEq] at h1 h2
+  exact ⟨h1.1.trans h.l, h2.1.trans h.l', h2.2.2.trans (h.pe.trans h1.2.2.symm), h2.2.1.trans (h.audit.trans h1.2.1.symm)⟩
+
+/-- same outcome class, same value, related settings -/
+def OutSim {β : Type} (o o' : Outcome (β × Settings)) : Prop :=
+  match o, o' with
+  | .ok (b, t), .ok (b', t') => b = b' ∧ LaxRel t t'
+  | .err, .err => True
+  | .undef, .undef => True
+  | _, _ => False
+
+def OutSimS (o o' : Outcome Settings) : Prop :=
+  match o, o' with
+  | .ok t, .ok t' => LaxRel t t'
+  | .err, .err => True
+  | .undef, .undef => True
+  | _, _ => False
+
+theorem OutSim.map_fst {β : Type} {o o' : Outcome (β × Settings)} (h : OutSim o o') :
+    o.map Prod.fst = o'.map Prod.fst := by
+  cases o with
+  | ok r => cases o' with
+    | ok r' => obtain ⟨b, t⟩ := r; obtain ⟨b', t'⟩ := r'; simp only [OutSim] at h; simp [Outcome.map, h.1]
+    | err => simp [OutSim] at h
+    | undef => simp [OutSim] at h
+  | err => cases o' <;> simp_all [OutSim, Outcome.map]
+  | undef => cases o' <;> simp_all [OutSim, Outcome.map]
+
+theorem goc_sim (s s' : Settings) (n : String) (hr : LaxRel s s') :
+    OutSim (s.getOrCreateCommodity (some n)) (s'.getOrCreateCommodity (some n)) := by
+  simp only [Settings.getOrCreateCommodity, hr.l, hr.l', hr.pe]
+  by_cases hn : n = ""
+  · by_cases hpe : s.permitEmpty = true
+    · simp only [hn, hpe, if_true, OutSim, true_and]
+      refine ⟨?_, ?_, ?_, ?_⟩ <;> simp [hr.l, hr.l', hr.pe, hr.audit, hpe]
+    · simp [hn, hpe, OutSim]
+  · by_cases hm : n ∈ s.commodities <;> by_cases hm' : n ∈ s'.commodities <;>
+      simp only [hn, hm, hm', if_true, if_false, Bool.false_eq_true, OutSim, true_and] <;>
+      refine ⟨?_, ?_, ?_, ?_⟩ <;> simp [hr.l, hr.l', hr.pe, hr.audit]
+
+theorem tag_sim (s s' : Settings) (n : String) (hr : LaxRel s s') :
+    OutSim (s.getOrCreateTag n) (s'.getOrCreateTag n) := by
+  simp only [Settings.getOrCreateTag, hr.l, hr.l']
+  by_cases hn : n = ""
+  · simp [hn, OutSim]
+  · by_cases hm : n ∈ s.tags <;> by_cases hm' : n ∈ s'.tags <;>
+      simp only [hn, hm, hm', if_true, if_false, Bool.false_eq_true, OutSim, true_and] <;>
+      refine ⟨?_, ?_, ?_, ?_⟩ <;> simp [hr.l, hr.l', hr.pe, hr.audit]
+
+theorem gocta_sim (s s' : Settings) (p : Path) (c : String) (hr : LaxRel s s') :
+    OutSim (s.getOrCreateTxnAccount p c) (s'.getOrCreateTxnAccount p c) := by
+  have h := goc_sim s s' c hr
+  unfold Settings.getOrCreateTxnAccount
+  cases e : s.getOrCreateCommodity (some c) with
+  | err => cases e' : s'.getOrCreateCommodity (some c) <;> simp_all [OutSim]
+  | undef => cases e' : s'.getOrCreateCommodity (some c) <;> simp_all [OutSim]
+  | ok r =>
+    cases e' : s'.getOrCreateCommodity (some c) with
+    | err => simp_all [OutSim]
+    | undef => simp_all [OutSim]
+    | ok r' =>
+      obtain ⟨c1, s1⟩ := r
+      obtain ⟨c1', s1'⟩ := r'
+      rw [e, e'] at h
+      simp only [OutSim] at h
+      obtain ⟨_, hr1⟩ := h
+      simp only [hr1.l, hr1.l', Bool.false_eq_true, if_false]
+      by_cases hm : p ∈ s1.accounts <;> by_cases hm' : p ∈ s1'.accounts <;>
+        simp only [hm, hm', if_true, if_false, OutSim, true_and] <;>
+        refine ⟨?_, ?_, ?_, ?_⟩ <;> simp [hr1.l, hr1.l', hr1.pe, hr1.audit]
+
+theorem mapMS_sim {α β : Type} (f : Settings → α → Outcome (β × Settings))
+    (hf : ∀ s s' a, LaxRel s s' → OutSim (f s a) (f s' a)) :
+    ∀ (l : List α) (s s' : Settings), LaxRel s s' → OutSim (mapMS f s l) (mapMS f s' l) := by
+  intro l
+  induction l with
+  | nil => intro s s' hr; simp only [mapMS, OutSim, true_and]; exact hr
+  | cons a t ih =>
+    intro s s' hr
+    have h := hf s s' a hr
+    simp only [mapMS]
+    cases e : f s a with
+    | err => cases e' : f s' a <;> simp_all [OutSim]
+    | undef => cases e' : f s' a <;> simp_all [OutSim]
+    | ok r =>
+      cases e' : f s' a with
+      | err => simp_all [OutSim]
+      | undef => simp_all [OutSim]
+      | ok r' =>
+        obtain ⟨b, s1⟩ := r
+        obtain ⟨b', s1'⟩ := r'
+        rw [e, e'] at h
+        simp only [OutSim] at h
+        obtain ⟨rfl, hr1⟩ := h
+        have h2 := ih s1 s1' hr1
+        cases e2 : mapMS f s1 t with
+        | err => cases e2' : mapMS f s1' t <;> simp_all [OutSim]
+        | undef => cases e2' : mapMS f s1' t <;> simp_all [OutSim]
+        | ok r2 =>
+          cases e2' : mapMS f s1' t with
+          | err => simp_all [OutSim]
+          | undef => simp_all [OutSim]
+          | ok r2' =>
+            obtain ⟨bs, s2⟩ := r2
+            obtain ⟨bs', s2'⟩ := r2'
+            rw [e2, e2'] at h2
+            simp only [OutSim] at h2
+            simp only [e2, e2', OutSim, h2.1, true_and]
+            exact h2.2
+
+theorem OutSim.elim {β : Type} {o o' : Outcome (β × Settings)} (h : OutSim o o') :
+    (o = .err ∧ o' = .err) ∨ (o = .undef ∧ o' = .undef) ∨
+    ∃ b t t', o = .ok (b, t) ∧ o' = .ok (b, t') ∧ LaxRel t t' := by
+  cases o with
+  | ok r => cases o' with
+    | ok r' =>
+      obtain ⟨b, t⟩ := r; obtain ⟨b', t'⟩ := r'
+      simp only [OutSim] at h
+      obtain ⟨rfl, hr⟩ := h
+      exact .inr (.inr ⟨b, t, t', rfl, rfl, hr⟩)
+    | err => simp [OutSim] at h
+    | undef => simp [OutSim] at h
+  | err => cases o' <;> simp_all [OutSim]
+  | undef => cases o' <;> simp_all [OutSim]
+
+theorem OutSimS.elim {o o' : Outcome Settings} (h : OutSimS o o') :
+    (o = .err ∧ o' = .err) ∨ (o = .undef ∧ o' = .undef) ∨ ∃ t t', o = .ok t ∧ o' = .ok t' ∧ LaxRel t t' := by
+  cases o with
+  | ok t => cases o' with
+    | ok t' => exact .inr (.inr ⟨t, t', rfl, rfl, h⟩)
+    | err => simp [OutSimS] at h
+    | undef => simp [OutSimS] at h
+  | err => cases o' <;> simp_all [OutSimS]
+  | undef => cases o' <;> simp_all [OutSimS]
+
+theorem registerUnit_sim (s s' : Settings) (u : Option PostUnit) (hr : LaxRel s s') :
+    OutSimS (registerUnit s u) (registerUnit s' u) := by
+  cases u with
+  | none => simp only [registerUnit, OutSimS]; exact hr
+  | some pu =>
+    rcases (goc_sim s s' pu.comm hr).elim with ⟨e, e'⟩ | ⟨e, e'⟩ | ⟨b, t, t', e, e', hr1⟩
+    · simp [registerUnit, e, e', OutSimS]
+    · simp [registerUnit, e, e', OutSimS]
+    · cases hcl : pu.closing with
+      | none => simp only [registerUnit, e, e', hcl, OutSimS]; exact hr1
+      | some cl =>
+        cases cl with
+        | total v =>
+          rcases (goc_sim t t' v.comm hr1).elim with ⟨f, f'⟩ | ⟨f, f'⟩ | ⟨b2, t2, t2', f, f', hr2⟩
+          · simp [registerUnit, e, e', hcl, f, f', Outcome.map, OutSimS]
+          · simp [registerUnit, e, e', hcl, f, f', Outcome.map, OutSimS]
+          · simp only [registerUnit, e, e', hcl, f, f', Outcome.map, OutSimS]; exact hr2
+        | unitPrice v =>
+          rcases (goc_sim t t' v.comm hr1).elim with ⟨f, f'⟩ | ⟨f, f'⟩ | ⟨b2, t2, t2', f, f', hr2⟩
+          · simp [registerUnit, e, e', hcl, f, f', Outcome.map, OutSimS]
+          · simp [registerUnit, e, e', hcl, f, f', Outcome.map, OutSimS]
+          · simp only [registerUnit, e, e', hcl, f, f', Outcome.map, OutSimS]; exact hr2
+
+theorem handlePosting_sim (s s' : Settings) (rp : RawPosting) (hr : LaxRel s s') :
+    OutSim (handlePosting s rp) (handlePosting s' rp) := by
+  rcases (registerUnit_sim s s' rp.unit hr).elim with ⟨e, e'⟩ | ⟨e, e'⟩ | ⟨t, t', e, e', hr1⟩
+  · simp [handlePosting, e, e', OutSim]
+  · simp [handlePosting, e, e', OutSim]
+  · cases ev : valuePosition rp.amount rp.unit with
+    | err => simp [handlePosting, e, e', ev, OutSim]
+    | undef => simp [handlePosting, e, e', ev, OutSim]
+    | ok vp =>
+      rcases (gocta_sim t t' rp.acct vp.postComm hr1).elim with ⟨g, g'⟩ | ⟨g, g'⟩ | ⟨a, t2, t2', g, g', hr2⟩
+      · simp [handlePosting, e, e', ev, g, g', OutSim]
+      · simp [handlePosting, e, e', ev, g, g', OutSim]
+      · cases em : mkPosting ⟨a, vp.postComm, vp.postAmount, vp.txnAmount, vp.isTotal, vp.txnComm, rp.comment⟩ with
+        | err => simp [handlePosting, e, e', ev, g, g', em, Outcome.map, OutSim]
+        | undef => simp [handlePosting, e, e', ev, g, g', em, Outcome.map, OutSim]
+        | ok q => simp only [handlePosting, e, e', ev, g, g', em, Outcome.map, OutSim, true_and]; exact hr2
+
+theorem acceptPostings_sim (s s' : Settings) (posts : List RawPosting) (last : Option (Path × Option String))
+    (hr : LaxRel s s') : OutSim (acceptPostings s posts last) (acceptPostings s' posts last) := by
+  rcases (mapMS_sim handlePosting handlePosting_sim posts s s' hr).elim with ⟨e, e'⟩ | ⟨e, e'⟩ | ⟨ps, t, t', e, e', hr1⟩
+  · simp [acceptPostings, e, e', OutSim]
+  · simp [acceptPostings, e, e', OutSim]
+  · cases ps with
+    | nil => simp [acceptPostings, e, e', OutSim]
+    | cons p0 rest =>
+      cases last with
+      | none => simp only [acceptPostings, e, e', OutSim, true_and]; exact hr1
+      | some ac =>
+        obtain ⟨a, cmt⟩ := ac
+        cases esum : txnSum (p0 :: rest) with
+        | none => simp [acceptPostings, e, e', esum, OutSim]
+        | some sm =>
+          rcases (gocta_sim t t' a p0.txnComm hr1).elim with ⟨g, g'⟩ | ⟨g, g'⟩ | ⟨a', t2, t2', g, g', hr2⟩
+          · simp [acceptPostings, e, e', esum, g, g', OutSim]
+          · simp [acceptPostings, e, e', esum, g, g', OutSim]
+          · cases em : mkPosting ⟨a', p0.txnComm, sm.negate, sm.negate, false, p0.txnComm, cmt⟩ with
+            | err => simp [acceptPostings, e, e', esum, g, g', em, Outcome.map, OutSim]
+            | undef => simp [acceptPostings, e, e', esum, g, g', em, Outcome.map, OutSim]
+            | ok q => simp only [acceptPostings, e, e', esum, g, g', em, Outcome.map, OutSim, true_and]; exact hr2
+
+theorem acceptTags_sim (s s' : Settings) (tags : List String) (hr : LaxRel s s') :
+    OutSimS (acceptTags s tags) (acceptTags s' tags) := by
+  rcases (mapMS_sim (fun s t => s.getOrCreateTag t) tag_sim tags s s' hr).elim with
+    ⟨e, e'⟩ | ⟨e, e'⟩ | ⟨bs, t, t', e, e', hr1⟩
+  · simp [acceptTags, e, e', OutSimS]
+  · simp [acceptTags, e, e', OutSimS]
+  · by_cases hn : tags.Nodup
+    · simp only [acceptTags, e, e', hn, if_true, OutSimS]; exact hr1
+    · simp [acceptTags, e, e', hn, OutSimS]
+
+theorem acceptHeader_sim (s s' : Settings) (h : Header) (hr : LaxRel s s') :
+    OutSimS (acceptHeader s h) (acceptHeader s' h) := by
+  cases hloc : h.location with
+  | none =>
+    cases ht : h.tags with
+    | none =>
+      by_cases ha : (s.audit && h.uuid.isNone) = true
+      · simp [acceptHeader, hloc, ht, hr.audit, ha, OutSimS]
+      · simp only [acceptHeader, hloc, ht, hr.audit, ha, Bool.false_eq_true, if_false, OutSimS]; exact hr
+    | some ts =>
+      rcases (acceptTags_sim s s' ts hr).elim with ⟨e, e'⟩ | ⟨e, e'⟩ | ⟨t, t', e, e', hr1⟩
+      · simp [acceptHeader, hloc, ht, e, e', OutSimS]
+      · simp [acceptHeader, hloc, ht, e, e', OutSimS]
+      · by_cases ha : (s.audit && h.uuid.isNone) = true
+        · simp [acceptHeader, hloc, ht, hr.audit, e, e', ha, OutSimS]
+        · simp only [acceptHeader, hloc, ht, hr.audit, e, e', ha, Bool.false_eq_true, if_false, OutSimS]; exact hr1
+  | some g =>
+    cases hg : geoOk g with
+    | false => simp [acceptHeader, hloc, hg, OutSimS]
+    | true =>
+      cases ht : h.tags with
+      | none =>
+        by_cases ha : (s.audit && h.uuid.isNone) = true
+        · simp [acceptHeader, hloc, hg, ht, hr.audit, ha, OutSimS]
+        · simp only [acceptHeader, hloc, hg, ht, hr.audit, ha, Bool.false_eq_true, if_false, OutSimS]; exact hr
+      | some ts =>
+        rcases (acceptTags_sim s s' ts hr).elim with ⟨e, e'⟩ | ⟨e, e'⟩ | ⟨t, t', e, e', hr1⟩
+        · simp [acceptHeader, hloc, hg, ht, e, e', OutSimS]
+        · simp [acceptHeader, hloc, hg, ht, e, e', OutSimS]
+        · by_cases ha : (s.audit && h.uuid.isNone) = true
+          · simp [acceptHeader, hloc, hg, ht, hr.audit, e, e', ha, OutSimS]
+          · simp only [acceptHeader, hloc, hg, ht, hr.audit, e, e', ha, Bool.false_eq_true, if_false, OutSimS]; exact hr1
+
+theorem acceptTxn_sim (s s' : Settings) (r : RawTxn) (hr : LaxRel s s') :
+    OutSim (acceptTxn s r) (acceptTxn s' r) := by
+  rcases (acceptHeader_sim s s' r.header hr).elim with ⟨e, e'⟩ | ⟨e, e'⟩ | ⟨t, t', e, e', hr1⟩
+  · simp [acceptTxn, e, e', OutSim]
+  · simp [acceptTxn, e, e', OutSim]
+  · rcases (acceptPostings_sim t t' r.posts r.last hr1).elim with ⟨g, g'⟩ | ⟨g, g'⟩ | ⟨ps, t2, t2', g, g', hr2⟩
+    · simp [acceptTxn, e, e', g, g', OutSim]
+    · simp [acceptTxn, e, e', g, g', OutSim]
+    · cases ps with
+      | nil => simp [acceptTxn, e, e', g, g', OutSim]
+      | cons p0 tl =>
+        by_cases hany : (p0 :: tl).any (fun p => p.txnComm != p0.txnComm) = true
+        · simp [acceptTxn, e, e', g, g', hany, OutSim]
+        · cases esum : txnSum (p0 :: tl) with
+          | none => simp [acceptTxn, e, e', g, g', hany, esum, OutSim]
+          | some sm =>
+            by_cases hz : sm.isZero = true
+            · simp only [acceptTxn, e, e', g, g', hany, esum, hz, if_true, Bool.false_eq_true, if_false, OutSim, true_and]
+              exact hr2
+            · simp [acceptTxn, e, e', g, g', hany, esum, hz, OutSim]
+
+/-- **lax_chart_free (three-valued).** With strict mode off the outcome class (accepted / rejected / outside
+    the modelled numeric domain) and the accepted transactions are the same for any two settings with the
+    same `permit-empty-commodity` and audit switches, whatever their charts. -/
+theorem lax_chart_free_outcome (st st' : Settings) (rs : List RawTxn)
+    (hs : st.strict = false) (hl : st'.strict = false)
+    (hpe : st'.permitEmpty = st.permitEmpty) (ha : st'.audit = st.audit) :
+    (acceptJournal st rs).map Prod.fst = (acceptJournal st' rs).map Prod.fst :=
+  (mapMS_sim acceptTxn acceptTxn_sim rs st st' ⟨hs, hl, hpe, ha⟩).map_fst
+
+/-- **lax_chart_free** on configurations: with strict mode off the declared charts are irrelevant —
+    same outcome class and same transactions as with empty charts. -/
+theorem lax_chart_free_config (audit pe : Bool) (accts : List Path) (comms tags : List String) (rs : List RawTxn) :
+    (acceptJournal (Settings.ofConfig false audit pe accts comms tags) rs).map Prod.fst =
+      (acceptJournal (Settings.ofConfig false audit pe [] [] []) rs).map Prod.fst := by
+  obtain ⟨h1, h2, h3, _⟩ := ofConfig_strict false audit pe accts comms tags
+  obtain ⟨k1, k2, k3, _⟩ := ofConfig_strict false audit pe [] [] []
+  exact lax_chart_free_outcome _ _ rs h1 k1 (k3.trans h3.symm) (k2.trans h2.symm)
 
 /-! ## Non-vacuity and regression witnesses -/
 
